@@ -57,4 +57,24 @@ case "${1:-}" in
 esac
 build "$@"
 export VERIF_BIN="$BIN"
-exec "$BIN/check" "$@"
+# The checker runs many interpreter states in parallel goroutines. If the Go runtime kills the
+# process because two of them touched the same map ("fatal error: concurrent map ..."), states are
+# sharing interpreter-owned memory: that is a violation of the property under check (its programs
+# cannot be computing what they compute alone), not a harness failure, and it is reported as one.
+ERRLOG="$WORK/stderr-${1:-x}-$$.log"
+"$BIN/check" "$@" 2> >(tee "$ERRLOG" >&2)
+rc=$?
+if [ $rc -ne 0 ] && [ $rc -ne 1 ]; then sleep 0.5; fi # let the tee finish writing the trace
+if [ $rc -ne 0 ] && [ $rc -ne 1 ] && grep -q "^fatal error: concurrent map" "$ERRLOG" 2>/dev/null; then
+  OUT="${VERIF_OUT:-$ROOT}"
+  mkdir -p "$OUT/replays"
+  RP="$OUT/replays/$1-runtime-concurrent-map.txt"
+  head -60 "$ERRLOG" > "$RP"
+  echo "VIOLATION property=$1 replay=$RP"
+  echo "  signature: runtime/concurrent-map-access-between-states"
+  echo "  the Go runtime stopped the checker: interpreter states running in parallel goroutines wrote the same map ($(grep -m1 -A4 '^goroutine .*running' "$ERRLOG" | grep -m1 'gopher-lua' | tr -d '\t'))"
+  rm -f "$ERRLOG"
+  exit 1
+fi
+rm -f "$ERRLOG"
+exit $rc
